@@ -19,7 +19,7 @@ BOUNDS = {
 ASSUMPTIONS = ['imports between user modules are listed but unused unless stated, so a failed dependency does not cascade',
                'component failures are signalled with PySmiError subclasses (the property covers only those)']
 
-TEXT_KINDS = ['empty', 'comment', 'lexerr', 'synerr', 'truncated', 'dupsym', 'badimport', 'twomods', 'misnamed', 'bundle']
+TEXT_KINDS = ['empty', 'comment', 'lexerr', 'synerr', 'truncated', 'dupsym', 'unktype', 'badimport', 'twomods', 'misnamed', 'bundle']
 
 
 def graphs(n):
@@ -282,4 +282,89 @@ class FailureAndRepair(object):
         return run(case, 'C07|failure-plus')
 
 
-FAMILIES = [NoDeviation(), OneDeviation(), TwoDeviations(), FailureAndRepair()]
+# --------------------------------------------------------------------------- real readers, adversarial octets
+
+OCTETS = [
+    ('ascii', b'-- plain\n'), ('latin1-in-comment', b'-- caf\xe9\n'), ('bad-utf8-in-text', None), ('utf8', '-- caf\u00e9\n'.encode('utf-8')),
+    ('bom', b'\xef\xbb\xbf'), ('nul', b'\x00'), ('lone-continuation', b'-- \x80\x80\n'), ('truncated-sequence', b'-- \xe2\x82\n'),
+    ('utf16-bom', b'\xff\xfe'), ('form-feed', b'\x0c\n'), ('ctrl-z-at-end', None),
+]
+
+
+class FilesOnDisk(object):
+    case_timeout = 20
+    name = 'files-on-disk'
+    describe = ('module A imports module B, both files in a directory (and in a ZIP archive) read by the REAL FileReader / ZipReader; '
+                'one of the files carries adversarial octets (Latin-1, invalid / truncated UTF-8, BOMs, NUL, form feed, Ctrl-Z) at '
+                'its start, inside a description or at its end: compile() returns a status for A and B, whatever the octets')
+
+    def blocks(self, tier):
+        return [{'kind': k, 'victim': v} for k in ('dir', 'zip') for v in ('A', 'B')]
+
+    def cases(self, block, tier):
+        for i in range(len(OCTETS)):
+            for ie in (False, True):
+                yield {'kind': block['kind'], 'victim': block['victim'], 'oct': i, 'ie': ie}
+
+    def run_case(self, case):
+        import os
+        import shutil
+        import tempfile
+        import zipfile
+        from mc import env
+        from pysmi.reader.localfile import FileReader
+        from pysmi.reader.zipreader import ZipReader
+        label, blob = OCTETS[case['oct']]
+        w = {'n': 2, 'edges': [['A', 'B']], 'used': 1}
+        files = {}
+        for m in ('A', 'B'):
+            data = H.module_text(w, m).encode('ascii')
+            if m == case['victim']:
+                if label == 'bad-utf8-in-text':
+                    data = data.replace(b'END', b'z%s OBJECT-IDENTITY STATUS current DESCRIPTION "bad \xc3\x28 \xff octets" ::= { x%s 9 }\nEND'
+                                        % (m.encode(), m.encode()))
+                elif label == 'ctrl-z-at-end':
+                    data = data + b'\x1a'
+                else:
+                    data = blob + data
+            files[m] = data
+        for b in env.BASE_NAMES:
+            files[b] = env.base_text(b).encode('utf-8')
+        base = os.environ.get('VERIF_TMP') or ('/dev/shm' if os.path.isdir('/dev/shm') else None)
+        d = tempfile.mkdtemp(prefix='mcC07', dir=base)
+        try:
+            if case['kind'] == 'dir':
+                for m, data in files.items():
+                    with open(os.path.join(d, m + '.mib'), 'wb') as f:
+                        f.write(data)
+                reader = FileReader(d)
+            else:
+                zp = os.path.join(d, 'mibs.zip')
+                with zipfile.ZipFile(zp, 'w') as z:
+                    for m, data in sorted(files.items()):
+                        z.writestr(m + '.mib', data)
+                reader = ZipReader(zp)
+            wr = env.CaptureWriter()
+            comp = env.MibCompiler(env.fresh_parser('smiV2'), env.make_codegen('json'), wr)
+            comp.addSources(reader)
+            comp.addSearchers(env.StubSearcher(*env.BASE_NAMES))
+            sig = 'C07|files-on-disk|%s|%s' % (case['kind'], label)
+            try:
+                res = comp.compile('A', ignoreErrors=case['ie'])
+            except Exception as exc:
+                return 'escaped', [('%s|exception-escapes-compile|%s' % (sig, type(exc).__name__), '%r\nfile %s: %r' % (
+                    exc, case['victim'], files[case['victim']][:200]))], 1
+            vs = []
+            for m in (('A', 'B') if case['victim'] == 'B' else ('A',)):   # B is reachable only through a parsed A
+                if str(res.get(m)) not in H.STATUSES:
+                    vs.append(('%s|module-without-status' % sig, '%s: %r in %r' % (m, res.get(m), dict(res))))
+            written = [n for n, _, _ in wr.written]
+            for m in ('A', 'B'):
+                if (res.get(m) == 'compiled') != (written.count(m) == 1):
+                    vs.append(('%s|status-and-hand-over-disagree' % sig, '%s: %r, written %r' % (m, res.get(m), written)))
+            return repr(sorted((k, str(v)) for k, v in res.items())), vs, 1
+        finally:
+            shutil.rmtree(d, ignore_errors=True)
+
+
+FAMILIES = [NoDeviation(), OneDeviation(), TwoDeviations(), FailureAndRepair(), FilesOnDisk()]
